@@ -147,6 +147,12 @@ def general_queries(t):
         "lambda d: SelectMany(Where(a.jets, lambda f: a.met != f.eta), lambda a: SelectMany(Where(Select(ds, lambda g: "
         "{'a': g, 'b': g.met}), lambda h: d.z0 == 5), lambda i: ds)))))",
         "Select(Select(ds, lambda a: First(a.jets)), lambda d: Count(Where(ds, lambda a: Count(Where(a.jets, lambda k: k.pt > d.pt)) > 0)))",
+        # and / or in value position on non-boolean operands
+        "Select(ds, lambda e: e.met and True)",
+        "Select(ds, lambda e: (e.met or 7) + 1)",
+        "Select(ds, lambda e: Count(e.jets) and e.met)",
+        "Select(Select(ds, lambda e: e.met and True), lambda v: v + 1)",
+        "Where(Select(ds, lambda e: Count(e.jets) and True), lambda f: f == True)",
         # a chain that starts with SelectMany under an outer lambda; f re-uses the outer name,
         # g (moved under f's binder by the fusion) refers to the OUTER variable
         "Select(ds, lambda e: Select(SelectMany(e.jets, lambda e: e.tracks), lambda t: t.pt + e.met))",
